@@ -31,7 +31,7 @@ THEOREMS = [
     "C08_child_priors_renormalised", "C08_renorm_is_division", "C08_expansion_records_evaluator", "C08_position_untouched",
     "C08_simulate_bounded", "C08_abs_value_le_sims", "C08_live_has_path",
     "C08_children_are_rulebook_moves", "C08_prior_at_is_table_index",
-]
+            "C08_source_update_eq", "C08_source_update_root", "C08_source_populate_terminal", "C08_source_populate_expand", "C08_source_populate_children_legal"]
 MODEL_TARGETS = ["model/Mcts.vo", "model/Harness.vo", "model/Lit.vo"]
 TRUSTED_BASE = [
     "recorders installed from the harness side: subclass of MCTS (descend/populate call the originals), "
@@ -1303,3 +1303,21 @@ def replay(run, rp):
     out["model_disagrees"] = model_disagrees
     out["violates"] = bool(problems) or bool(model_disagrees)
     return out
+
+
+# ---- translator tie (T): the C08_source_* theorems quantify over functions REGENERATED FROM THE SOURCE; t08's
+# correspondence validates the semantics library and the translation scheme on every run.
+from . import t08 as _t08  # noqa: E402
+
+MODEL_TARGETS = sorted(set(list(MODEL_TARGETS) + list(_t08.MODEL_TARGETS)))
+TRUSTED_BASE = list(TRUSTED_BASE) + list(getattr(_t08, "TRUSTED_BASE", []))
+_c08_t08_correspondence = correspondence
+
+
+def pregen(run):
+    return _t08.pregen(run)
+
+
+def correspondence(run):
+    _c08_t08_correspondence(run)
+    _t08.correspondence(run)
